@@ -296,6 +296,42 @@ theorem dergstrip_end_is_limit_left (rho : ℝ) :
   refine h.congr fun s => ?_
   simp only [Function.comp_apply, dergstripInterior_neg]
 
+/-! ### the window of the end-point branch -/
+
+/-- `mask_true` of `_dergstrip` (regenerated from the `np.isclose` call of the source): the end-point
+branch is taken exactly when `|s|` is within `1e-8` of `1` (`np.isclose(|s| - 1, 0, atol=1e-8)`: the
+relative part of the tolerance multiplies the reference `0`). -/
+theorem dergstripMask_iff (s : ℝ) : dergstripMask s = true ↔ |(|s| - 1)| ≤ 1 / 100000000 := by
+  simp [dergstripMask, Elem.abs]
+
+/-- Outside that window the value `_dergstrip` returns is the interior formula … -/
+theorem dergstrip_eq_interior (rho s : ℝ) (h : 1 / 100000000 < |(|s| - 1)|) :
+    OneD.dergstrip rho s = dergstripInterior rho s := by
+  have : ¬ dergstripMask s = true := fun hm => absurd ((dergstripMask_iff s).1 hm) (not_le.2 h)
+  simp [OneD.dergstrip, this]
+
+/-- … hence C01's weight factor: at every node `-1 < s < 1` farther than `1e-8` from the end points
+the factor `_dergstrip` multiplies the base weight with is the derivative of the node map `_gstrip`. -/
+theorem dergstrip_is_deriv_outside_window (rho s : ℝ) (hs : -1 < s ∧ s < 1)
+    (h : 1 / 100000000 < |(|s| - 1)|) :
+    HasDerivAt (fun y : ℝ => gstrip rho y) (OneD.dergstrip rho s) s := by
+  rw [dergstrip_eq_interior rho s h]
+  exact dergstrip_is_deriv_gstrip rho s hs
+
+/-- Inside the window the returned value is the end-point constant (the one-sided limit of the
+derivative, `dergstrip_end_is_limit`), whatever `s`. -/
+theorem dergstrip_eq_end (rho s : ℝ) (h : |(|s| - 1)| ≤ 1 / 100000000) :
+    OneD.dergstrip rho s = dergstripEnd rho 1 := by
+  have hm : dergstripMask s = true := (dergstripMask_iff s).2 h
+  simp only [OneD.dergstrip, hm, if_true]
+  simp [dergstripEnd]
+
+/-- non-vacuity: `s = 0.99999` (a node `1e-5` from the end: outside the window) and `s = 1 - 1e-9`
+(inside). -/
+example : (1 / 100000000 : ℝ) < |(|(99999 / 100000 : ℝ)| - 1)| ∧
+    |(|(999999999 / 1000000000 : ℝ)| - 1)| ≤ 1 / 100000000 := by
+  constructor <;> norm_num [abs_of_nonneg, abs_of_nonpos]
+
 /-! ### the full statement -/
 
 /-- C01, Trefethen strip map: `gstrip_shape_full` of `Closed.lean` holds: for `rho > 1`, `_gstrip rho`
